@@ -1,7 +1,8 @@
-package join
+package join_template
 
-// C15 pipeline-level harness (mapped into /repo/plugin/action/join by `go test -overlay`).
-// The REAL join action runs inside the REAL pipeline (pipeline.New, real processors, streamer,
+// C15 pipeline-level harness (mapped into /repo/plugin/action/join_template by `go test -overlay`; generated from the
+// join package's harness, only the plugin under test differs).
+// The REAL join_template action runs inside the REAL pipeline (pipeline.New, real processors, streamer,
 // heartbeat/tryUnblock time-outs, fake input, devnull output) with event_timeout 10-30 ms, several
 // sources and streams, 1/2/4 processors, optionally behind another action:
 //
@@ -39,8 +40,6 @@ import (
 	"github.com/ozontech/file.d/test"
 	"github.com/prometheus/client_golang/prometheus"
 	"go.uber.org/zap"
-
-	"github.com/ozontech/file.d/cfg"
 )
 
 type c15pStream struct {
@@ -207,13 +206,7 @@ func (p *c15pBreak) Do(e *pipeline.Event) pipeline.ActionResult {
 
 // the joining action under test (this package's plugin through its real factory and config parser)
 func c15pJoinConfig(sc *c15pScenario) pipeline.AnyConfig {
-	return test.NewConfig(&Config{
-		Field:        "log",
-		Start:        cfg.Regexp("/^S/"),
-		Continue:     cfg.Regexp("/^C/"),
-		MaxEventSize: sc.Limit,
-		Negate:       sc.Neg,
-	}, nil)
+	return test.NewConfig(&Config{Field: "log", Templates: sc.Templates, MaxEventSize: sc.Limit}, nil)
 }
 
 var c15pStartMu sync.Mutex // serialises the GOMAXPROCS dance around Pipeline.Start
